@@ -126,6 +126,16 @@ CHECKS = {
         "technique": SIM + "per-host ModelCache + question-history model judged against every query on the trace",
         "design_ref": "DESIGN.md §5 C13",
     },
+    "C18": {
+        "text": "Seeded search over cache states of the looked-up instance (none/some/all of SRV, TXT, A, AAAA; fresh, stale, "
+                "expired-but-unpurged; several addresses; two SRV generations) x arrival times of the missing records "
+                "relative to the query schedule and to the timeout (+-1 ms) x timeouts 200 ms..10 s x 1..3 concurrent "
+                "lookups; oracle on return time, success iff an address is known, provenance of every returned field from "
+                "records the reference cache held unexpired during the lookup, silence when the cache suffices and "
+                "QU-then-QM otherwise.",
+        "technique": SIM + "provenance oracle against the per-host ModelCache mutation log, reactive scripted responder",
+        "design_ref": "DESIGN.md §5 C18",
+    },
     "C05": {
         "text": "Seeded search over response-datagram histories (repeats, refreshes, goodbyes, cache-flush, re-cased names) "
                 "and clock steps around the 1 s flush window, TTL expiry and the 10 s purge, driven through the real "
